@@ -539,7 +539,7 @@ class RepetitionCodeDescription(IRepetitionCodeDescription):
             for initial_state_index in initial_state.initial_states.keys()
         ])
         result.extend([
-            initial_state.get_data_qubit_operation(
+            initial_state.get_ancilla_qubit_operation(
                 qubit_index=self.map_qubit_id_to_circuit_index(
                     qubit_id=self.ancilla_qubit_ids[initial_state_index],
                 ),
